@@ -289,6 +289,46 @@ def dominating_guards(site_node: ast.AST) -> List[Tuple[str, bool]]:
     return out
 
 
+def raise_conditions(fn: ast.AST) -> List[Tuple[ast.Raise, List[Tuple[ast.expr, bool]]]]:
+    """every `raise` of fn with the conditions that dominate it (tests as expressions, named conditions read through): the raise is
+    reached exactly when all of them hold - whichever of `if bad: raise`, `if ok: .. else: raise`, `ok = ..; if not ok: raise` spells it"""
+    out = []
+    for r in walk_no_nested(fn):
+        if isinstance(r, ast.Raise):
+            conds = []
+            seen = set()
+            for t, pol in dominating_guards(r):
+                if (t, pol) in seen:
+                    continue
+                seen.add((t, pol))
+                try:
+                    conds.append((ast.parse(t, mode='eval').body, pol))
+                except SyntaxError:
+                    continue
+            out.append((r, conds))
+    return out
+
+
+def refusal_tests(fn: ast.AST) -> List[Tuple[ast.Raise, ast.expr]]:
+    """every raise of fn with ONE expression that is true exactly when it is reached: the conjunction of its dominating conditions
+    (negated where the raise sits on the false side), locals that name a value read through"""
+    from .pyfacts import resolve_names
+    out = []
+    for r, conds in raise_conditions(fn):
+        parts: List[ast.expr] = []
+        seen = set()
+        for c, pol in conds:
+            c2 = resolve_names(fn, c, allow_calls=True, depth=3)          # type: ignore[arg-type]
+            e = c2 if pol else ast.UnaryOp(op=ast.Not(), operand=c2)
+            k = ast.dump(e)
+            if k not in seen:
+                seen.add(k)
+                parts.append(e)
+        if parts:
+            out.append((r, parts[0] if len(parts) == 1 else ast.BoolOp(op=ast.And(), values=parts)))
+    return [(r, ast.fix_missing_locations(e)) for r, e in out]
+
+
 class GuardFacts:
     """the conditions known at a site as a set of canonical facts: every (test, polarity) of dominating_guards is brought to
     negation normal form and split into its conjuncts, so `len(n) >= 2` is known in the body of `if len(n) >= 2:`, in the else
